@@ -77,6 +77,13 @@ def gen(rng, i):
         m = rng.choice([4, 5, 6])
         jobs = [{"S": 10 * j, "D": 300, "K": None, "C": False} for j in range(m)]
         jobs[rng.randrange(2, m - 1)]["K"] = rng.choice([100, 150])
+    if i % 11 == 5:
+        # unlimited for a while (work is handed over meanwhile), then a finite count with more queued work than the limit:
+        # what was handed over while unlimited still counts as in flight
+        t1 = rng.choice([150, 250])
+        count, block = {"script": [[0, None], [t1, rng.choice([1, 2])]]}, False
+        jobs = [{"S": 0, "D": 700, "K": None, "C": False} for _ in range(rng.choice([1, 2, 3]))]
+        jobs += [{"S": t1 + rng.choice([50, 100, 200]), "D": 300, "K": None, "C": False} for _ in range(rng.choice([2, 3]))]
     fl = "manual" if i % 2 == 0 else "pool"
     return {"flavour": fl, "count": count, "block": block, "jobs": jobs,
             "horizon": 36000 if isinstance(count, dict) else 2500, "workers": rng.choice([1, 2, 4])}
@@ -122,6 +129,15 @@ def run(ck):
                                                 ("sub3", "ThrottleExecutor-t"), ("env1", "sub3"), ("sub3", "env1")],
                               range(1, 50, 5 if quick else 1), range(1, 40, 6 if quick else 1),
                               facts={"block": False, "count_none": False, "dynamic": False})
+    # three parties: a submitter has looked at the capacity (all slots taken, nothing queued) but not yet queued its
+    # job; the running callable finishes; the hand-over thread makes its pass over the still empty queue and goes back to
+    # sleep; the submitter goes on - the freed slot must still be used at once
+    p3 = {"flavour": "manual", "count": 1, "block": False,
+          "jobs": [{"S": 0, "D": 300, "K": None, "C": False}, {"S": 300, "D": 300, "K": None, "C": False}], "horizon": 3000}
+    for n in range(1, 60, 2 if quick else 1):
+        swept.append({"scen": "throttle", "params": p3,
+                      "strat": ["phases", [["sub2", n, 300], ["env1", 10000], ["ThrottleExecutor-t", 10000], ["sub2", 10000]]],
+                      "gran": "line", "facts": {"block": False, "count_none": False, "dynamic": False, "directed": True}})
     ck.run_and_validate(swept, TRACE, nontrivial=lambda t, r: True)
     ck.assumptions += [
         "in flight = handed to the delegate and neither finished nor cancelled there (never more than the executor's own count)",
